@@ -157,21 +157,23 @@ func patchConst(p *bcl.Prog, placeholder any, v any) {
 
 func patchConsts(p *bcl.Prog, placeholders []any, vals []any) {
 	consts := bcl.VerifConsts(p)
-	idx := make([]int, len(placeholders))
+	// every occurrence of a placeholder is replaced (a literal used twice makes
+	// two constants); all indices are resolved before anything is stored
+	idx := make([][]int, len(placeholders))
 	for k, ph := range placeholders {
-		idx[k] = -1
 		for i, c := range consts {
 			if c == ph {
-				idx[k] = i
-				break
+				idx[k] = append(idx[k], i)
 			}
 		}
-		if idx[k] < 0 {
+		if len(idx[k]) == 0 {
 			panic("placeholder constant not found")
 		}
 	}
-	for k, i := range idx {
-		bcl.VerifSetConst(p, i, vals[k])
+	for k, is := range idx {
+		for _, i := range is {
+			bcl.VerifSetConst(p, i, vals[k])
+		}
 	}
 }
 
